@@ -39,8 +39,9 @@ TInit == Init /\ tr \in 1..Len(Traces) /\ l = 1 /\ T = {} /\ B = [t \in Targets 
 
 (* ---- the contract over the logged state ---- *)
 TPathsAgree(S) == \A x \in S : x.sel = x.sel2
+\* two tasks of a target never select the same pair; the known finding explains it only for "*.c" against "d.*"
 TExclusive(S) == \A x \in S, y \in S : (x.id # y.id /\ x.tgt = y.tgt /\ x.sel \cap y.sel # {}) =>
-                     Known("C10_PARTIAL_OVERLAP", ~Partial(x.name, y.name))
+                     (Partial(x.name, y.name) /\ Known("C10_PARTIAL_OVERLAP", FALSE))
 TSelectsExactly(S, cl) == \A x \in S : x.sel \subseteq NamedBy(x.name) /\ NamedBy(x.name) \ cl[x.id] \subseteq x.sel
 TBookImplied(S, bk) == \A t \in Targets :
     LET L == {x \in S : x.tgt = t}
@@ -60,7 +61,8 @@ TStep ==
            cl == [id \in IdsOf(Tn) |-> IF id \in DOMAIN claimed THEN claimed[id]
                      ELSE LET me == CHOOSE x \in Tn : x.id = id
                           IN {p \in Univ : \E u \in T : u.id # id /\ u.tgt = me.tgt /\ Covers(u.name, p)}]
-       IN /\ \A x \in Tn : x.nnames = 1 /\ x.tgt \in Targets /\ x.sel \subseteq Univ
+       IN /\ e.i = l /\ (l = Len(Traces[tr].events) => e.n = l)   \* the trace is complete: no event lost
+          /\ \A x \in Tn : x.nnames = 1 /\ x.tgt \in Targets /\ x.sel \subseteq Univ
           /\ Cardinality(IdsOf(Tn)) = Cardinality(Tn)
           /\ \/ /\ e.op = "create" /\ e.res = "ok"              \* accepted: the task is stored with the requested specification
                 /\ e.id \notin IdsOf(T) /\ IdsOf(Tn) = IdsOf(T) \cup {e.id}
